@@ -62,6 +62,11 @@ fn wrappers() -> Vec<(&'static str, &'static str)> {
         ("WITH WHERE", "UNWIND $xs AS x WITH x WHERE {F} IS NOT NULL RETURN x"),
         ("WITH then count", "UNWIND $xs AS x WITH {F} AS y RETURN count(*) AS n"),
         ("SKIP 0 LIMIT big", "UNWIND $xs AS x RETURN {F} AS r SKIP 0 LIMIT 1000"),
+        ("count(*) then collect()", "UNWIND $xs AS x RETURN count(*) AS c, collect({F}) AS r"),
+        ("collect() then count(*)", "UNWIND $xs AS x RETURN collect({F}) AS r, count(*) AS c"),
+        ("count(*) then sum()", "UNWIND $xs AS x RETURN count(*) AS c, sum(size(toString({F}))) AS s"),
+        ("grouped count(*) then min()", "UNWIND $xs AS x RETURN 1 AS g, count(*) AS c, min({F}) AS m"),
+        ("three aggregates", "UNWIND $xs AS x RETURN count(x) AS a, count(*) AS b, max({F}) AS m"),
         ("SKIP 1", "UNWIND $xs AS x RETURN {F} AS r SKIP 1"),
         ("SKIP all", "UNWIND $xs AS x RETURN {F} AS r SKIP 1000"),
         ("WITH SKIP", "UNWIND $xs AS x WITH {F} AS y SKIP 2 RETURN y"),
